@@ -327,7 +327,7 @@ func newEventFromUntrustedJSONV1(eventJSON []byte, roomVersion IRoomVersion) (PD
 		return nil, err
 	}
 
-	if err := checkID(res.eventFields.RoomID, "room", '!'); err != nil {
+	if err := checkRoomIDIsValid(res.eventFields.RoomID); err != nil {
 		return nil, err
 	}
 
@@ -375,7 +375,7 @@ func newEventFromTrustedJSONV1(eventJSON []byte, redacted bool, roomVersion IRoo
 		return nil, err
 	}
 
-	if err := checkID(res.eventFields.RoomID, "room", '!'); err != nil {
+	if err := checkRoomIDIsValid(res.eventFields.RoomID); err != nil {
 		return nil, fmt.Errorf("RoomID is invalid: %w", err)
 	}
 
@@ -391,7 +391,7 @@ func newEventFromTrustedJSONWithEventIDV1(eventID string, eventJSON []byte, reda
 		return nil, err
 	}
 
-	if err := checkID(res.eventFields.RoomID, "room", '!'); err != nil {
+	if err := checkRoomIDIsValid(res.eventFields.RoomID); err != nil {
 		return nil, err
 	}
 
